@@ -61,6 +61,25 @@ func c09BombDoc(role string, n int) []byte {
 	case "xref stream data":
 		d.Override = map[string]string{"XRefPad": fmt.Sprint(n)}
 		return d.BytesXRefStream(false)
+	case "page content with predictor":
+		rows := (n + 63) / 64
+		var pre bytes.Buffer
+		for i := 0; i < rows; i++ {
+			pre.WriteByte(2)
+			if i == 0 {
+				pre.Write(bytes.Repeat([]byte{' '}, 64))
+			} else {
+				pre.Write(make([]byte, 64)) // Up predictor: same as the row above
+			}
+		}
+		s := d.AddStream("<</Filter/FlateDecode/DecodeParms<</Predictor 12/Columns 64>>>>", flateEnc(pre.Bytes()))
+		d.SetContents(pg, docgen.Ref(s))
+	case "object stream body with predictor":
+		d.Override = map[string]string{"ObjStmPad": fmt.Sprint(n), "Predictor": "12"}
+		return d.BytesXRefStream(true)
+	case "xref stream data with predictor":
+		d.Override = map[string]string{"XRefPad": fmt.Sprint(n), "Predictor": "12"}
+		return d.BytesXRefStream(false)
 	}
 	return d.Bytes()
 }
@@ -151,7 +170,8 @@ func c09ScanContext(ctx *model.Context, maxDecode, maxStream int64) (worst strin
 func c09Documents(r *core.R) {
 	scratch := core.Scratch("c09")
 	defer os.RemoveAll(scratch)
-	roles := []string{"page content", "second content stream", "form xobject", "image", "metadata", "embedded file", "font file", "unreferenced stream", "object stream body", "xref stream data"}
+	roles := []string{"page content", "second content stream", "form xobject", "image", "metadata", "embedded file", "font file", "unreferenced stream", "object stream body", "xref stream data",
+		"page content with predictor", "object stream body with predictor", "xref stream data with predictor"}
 	const L = 16 << 10
 	type lim struct {
 		name              string
